@@ -335,6 +335,10 @@ package nfs
 //@   ensures [E3-complete] emitComplete(dip, uint64(start), ite(result.Eof, dip.Size, emitlast + 128)) @C13
 //@   ensures [E5-progress] !result.Eof ==> emitany && emitlast >= uint64(start) && emitlast < dip.Size @C13 @C06
 //@   cbensures [E2-entry] lastcookie == off + 128 && lastfileid == inum && lastname == name @C13
+// E2-linked (C13): every entry is appended at the tail of the reply list: the list's head stays, the old tail points to
+// the new entry, the new entry is the tail and ends the list
+//@   cbensures [E2-linked] last != nil && last.Nextentry == nil && uint64(last.Cookie) == off + 128 && (old(last) == nil ==> lst == last) && (old(last) != nil ==> old(last).Nextentry == last && lst == old(lst)) @C13
+//@   ensureslocal [E2-list] result.Entries == lst && result.Eof == eof @C13
 //@   ensures dirDone(dip, op) && dip.Size == old(dip.Size) && dip.Kind == 2
 
 //@ spec Ls3(dip, op, start, dircount, maxcount)
@@ -350,7 +354,9 @@ package nfs
 //@   ensures [E5-progress] !result.Eof ==> emitany && emitlast >= uint64(start) && emitlast < dip.Size @C13 @C06
 //@   cbensures [E2-entry] lastcookie == off + 128 && lastfileid == inum && lastname == name @C13
 //@   cbensures [E2-handle] lasthino == inum && lasthgen == ip.Gen && lastattrid == inum @C13 @C08
+//@   cbensures [E2-linked] last != nil && last.Nextentry == nil && uint64(last.Cookie) == off + 128 && (old(last) == nil ==> lst == last) && (old(last) != nil ==> old(last).Nextentry == last && lst == old(lst)) @C13
 //@   ensures [L2-heldsame] held == old(held) @C03 @C06
+//@   ensureslocal [E2-list] result.Entries == lst && result.Eof == eof @C13
 //@   ensures dirDone(dip, op) && dip.Size == old(dip.Size) && dip.Kind == 2
 
 //@ spec (*Nfs).NFSPROC3_READDIR(nfs, args)
